@@ -180,6 +180,19 @@ C12_KillCompletes(cfg, job, pods, now, nokube) ==
     (job.ex /\ job.started /\ ~job.del /\ job.kill # 0 /\ job.kill <= now) =>
         /\ (\A p \in Mine(pods) : Alive(p) => (p.name \in nokube /\ (cfg.forbid \/ cfg.fd = 0)))
         /\ ((\A p \in Mine(pods) : ~Alive(p)) => job.phase \in {"Killed", "AdmissionError"})
+\* the same two goals at a quiet point in the middle of the drain: a task on an unresponsive node whose graceful deletion is under way
+\* may still be inside the force-delete timeout
+WaitsForForce(cfg, p, nokube, now) == p.name \in nokube /\ (cfg.forbid \/ cfg.fd = 0 \/ (p.del # 0 /\ now < p.del + cfg.fd))
+C12_KillCompletesAt(cfg, job, pods, now, nokube) ==
+    (job.ex /\ job.started /\ ~job.del /\ job.kill # 0 /\ job.kill <= now) =>
+        \A p \in Mine(pods) : Alive(p) => WaitsForForce(cfg, p, nokube, now)
+C12_PendingCompletesAt(cfg, job, pods, now, nokube) ==
+    (job.ex /\ job.started /\ ~job.del /\ cfg.pt > 0) =>
+        \A p \in Mine(pods) : (Alive(p) /\ ~p.ran /\ now >= p.cr + cfg.pt) => WaitsForForce(cfg, p, nokube, now)
+C10_ReachesAt(cfg, job, pods, nokube, now) ==
+    (job.ex /\ job.started /\ ~job.del /\ ~job.adm /\ job.kill = 0 /\ DecidedRec(cfg, job) /\ ~\E p \in Mine(pods) : Alive(p) /\ WaitsForForce(cfg, p, nokube, now)) =>
+        /\ job.kind = "Finished"
+        /\ ~\E p \in Mine(pods) : Alive(p) /\ p.del = 0
 C12_PendingCompletes(cfg, job, pods, now, nokube) ==
     (job.ex /\ job.started /\ ~job.del /\ cfg.pt > 0) =>
         \A p \in Mine(pods) : (Alive(p) /\ ~p.ran /\ now >= p.cr + cfg.pt) => (p.name \in nokube /\ (cfg.forbid \/ cfg.fd = 0))
